@@ -26,6 +26,14 @@ pub fn unhex(t: &str) -> String {
 }
 #[derive(Debug, PartialEq, Eq, Clone, Default, Hash)]
 pub struct Cg<const N: usize>;
+/// a type WITHOUT `Default`: instantiates type parameters that only occur inside `Option<T>`
+#[derive(Debug, PartialEq, Eq, Clone, Hash)]
+pub struct NoDef(pub u8);
+/// a generic error type + constructor (parse_err_ty / parse_err_fn written with generic arguments)
+#[derive(Debug, PartialEq, Clone)]
+pub struct PErrG<T>(pub String, pub core::marker::PhantomData<T>);
+pub fn perr_g<T>(s: &str) -> PErrG<T> { CALLS.fetch_add(1, Ordering::SeqCst); PErrG(s.to_string(), core::marker::PhantomData) }
+pub mod errs { pub use super::{PErr, perr}; }
 
 /// A fixed-capacity, allocation-free string-ish type (used where `String` is not available).
 #[derive(Debug, PartialEq, Clone, Default)]
@@ -125,7 +133,14 @@ GENERIC_DECL = {
     'lt': ("<'a>", "<'static>", ''),
     'const': ('<const N: usize>', '<3>', ''),
     'lt_ty': ("<'a, T: Default + PartialEq + ::core::fmt::Debug + Clone>", "<'static, u16>", ''),
+    # a parameter without a Default bound, instantiated with a type that has no Default (it only occurs inside Option<T>)
+    'ty_nd': ('<T: PartialEq + ::core::fmt::Debug + Clone>', '<NoDef>', ''),
 }
+# spellings of the custom parse error: (parse_err_ty, parse_err_fn, pattern binding the message as `s`)
+ERR_FORMS = {'plain': ('PErr', 'perr', 'PErr(s)'), 'path': ('errs::PErr', 'errs::perr', 'PErr(s)'),
+             'generic': ('PErrG<u8>', 'perr_g::<u8>', 'PErrG(s, _)')}
+# the same parameter lists with defaults (legal on the enum, not allowed in an impl header)
+GENERIC_DEFAULTS = {'ty': ' = u16', 'lt_ty': ' = u16', 'ty_nd': ' = NoDef', 'const': ' = 3'}
 
 PALETTE_RS = dict(PALETTE)
 PALETTE_RS['RefStr'] = ("&'a str", '"dw"', '"zz"')
@@ -134,6 +149,7 @@ PALETTE_RS['Cg'] = ('Cg<N>', None, None)
 PALETTE_RS['BoxStr'] = ('Box<str>', 'Box::<str>::from("dw")', 'Box::<str>::from("zz")')
 PALETTE_RS['u32'] = ('u32', '70000u32', '5u32')
 PALETTE_RS['T'] = ('T', None, None)
+PALETTE_RS['OptT'] = ('Option<T>', 'Some(NoDef(1))', 'Some(NoDef(2))')
 PALETTE_RS['Inner'] = ('Inner', 'Inner::Bb', 'Inner::Cc')
 PALETTE_RS['Cap'] = ('Cap', 'Cap::from("dw")', 'Cap::from("zz")')
 # palette substitution for the #![no_std] (no alloc) configuration
@@ -161,12 +177,18 @@ impl core::fmt::Display for Cap {
 impl AsRef<str> for Cap { fn as_ref(&self) -> &str { core::str::from_utf8(&self.buf[..self.len]).unwrap_or("?") } }
 #[derive(Debug, PartialEq, Clone, Default, Hash, Eq)]
 pub struct Cg<const N: usize>;
+#[derive(Debug, PartialEq, Eq, Clone, Hash)]
+pub struct NoDef(pub u8);
+#[derive(Debug, PartialEq, Clone)]
+pub struct PErrG<T>(pub Cap, pub core::marker::PhantomData<T>);
+pub fn perr_g<T>(s: &str) -> PErrG<T> { CALLS.fetch_add(1, Ordering::SeqCst); PErrG(Cap::from(s), core::marker::PhantomData) }
+pub mod errs { pub use super::{PErr, perr}; }
 #[derive(Debug, PartialEq, Clone, Default)]
 pub struct PErr(pub Cap);
 pub fn perr(s: &str) -> PErr { CALLS.fetch_add(1, Ordering::SeqCst); PErr(Cap::from(s)) }
 '''
 
-EXTREME = {'u8': 'u8::MAX', 'i32': 'i32::MIN', 'i64': 'i64::MIN', 'u16': 'u16::MAX', 'u32': 'u32::MAX', 'bool': 'true',
+EXTREME = {'OptT': 'Some(NoDef(255))', 'u8': 'u8::MAX', 'i32': 'i32::MIN', 'i64': 'i64::MIN', 'u16': 'u16::MAX', 'u32': 'u32::MAX', 'bool': 'true',
            'String': 'String::from("a fairly long string with {braces} and \\u{e9}\\u{1f600} in it")', 'OptU8': 'Some(u8::MAX)'}
 STRINGY = {'String', 'BoxStr', 'RefStr', 'StaticStr'}
 
@@ -187,6 +209,8 @@ def field_ty(key, inst=False, generics=''):
         t = t.replace("'a", "'static").replace('Cg<N>', 'Cg<3>')
         if t == 'T':
             t = 'u16'
+        if key == 'OptT':
+            t = 'Option<NoDef>'
     return t
 
 
@@ -223,6 +247,8 @@ class EnumGen:
                 v.ftypes = [self.palette_map.get(t, t) for t in v.ftypes]
         g = GENERIC_DECL[e.generics]
         self.gdecl, self.ginst, self.gwhere = g
+        if e.extra.get('gen_default') and e.generics in GENERIC_DEFAULTS:
+            self.gdecl = self.gdecl[:-1] + GENERIC_DEFAULTS[e.generics] + '>'
         if self.generic_bound:
             std = 'Default + PartialEq + ::core::fmt::Debug + Clone'
             self.gdecl = self.gdecl.replace(std, self.generic_bound)
@@ -299,7 +325,8 @@ class EnumGen:
         if e.phf:
             items.append('use_phf')
         if e.err:
-            items += ['parse_err_ty = PErr', 'parse_err_fn = perr']
+            ty, fn, _ = ERR_FORMS[e.extra.get('err_form', 'plain')]
+            items += ['parse_err_ty = %s' % ty, 'parse_err_fn = %s' % fn]
         if e.cis:
             items.append('const_into_str')
         if self.sp != 'strum':
@@ -470,13 +497,14 @@ class EnumGen:
         e = self.e
         has_default = any(v.default and not v.dis for v in e.variants)
         custom = e.err and not has_default
-        errty = 'PErr' if custom else '%s::ParseError' % self.sp
+        eform = ERR_FORMS[e.extra.get('err_form', 'plain')]
+        errty = eform[0] if custom else '%s::ParseError' % self.sp
         out = []
         out.append('fn fmt_res(r: Result<Inst, %s>) -> String {' % errty)
         out.append('    match r {')
         out.append('        Ok(v) => format!("ok {}{}", ident_of(&v), payload(&v)),')
         if custom:
-            out.append('        Err(PErr(s)) => format!("err custom {}", hex(s.as_bytes())),')
+            out.append('        Err(%s) => format!("err custom {}", hex(s.as_bytes())),' % eform[2])
         else:
             out.append('        Err(%s::ParseError::VariantNotFound) => "err std".to_string(),' % self.sp)
         out.append('    }')
@@ -750,7 +778,11 @@ class EnumGen:
             out.append('#[repr(%s)] #[derive(Clone, Copy)] enum RefDiscLayout { %s }' % (raw, ', '.join(
                 '%s%s' % (v.ident, (' = %s' % (v.discr_expr if v.discr_expr is not None else v.discr)) if (v.discr is not None or v.discr_expr is not None) else '')
                 for v in e.variants)))
-        out += ['fn op_disc(a: &[&str]) -> String {',
+        out += ["struct ProbeInto<'p, X>(&'p X);",
+                'trait NoIntoDisc { fn probe_into(&self) -> &\'static str { "-" } }',
+                "impl<'p, X> NoIntoDisc for ProbeInto<'p, X> {}",
+                "impl<'p, X: %s::IntoDiscriminant> ProbeInto<'p, X> { fn probe_into(&self) -> &'static str { \"UNEXPECTED-IntoDiscriminant-impl\" } }" % self.sp,
+                'fn op_disc(a: &[&str]) -> String {',
                 '    let alt: u8 = a[2].parse().unwrap();',
                 '    let v = match mk(a[1], alt, "") { Some(v) => v, None => return "bad-op".to_string() };',
                 '    let f1: %s = <%s as core::convert::From<Inst>>::from(v.clone());' % (D, D),
@@ -760,7 +792,8 @@ class EnumGen:
         if has_into:
             out.append('    let into = { let f3: %s = %s::IntoDiscriminant::discriminant(&v); hex(format!("{:?}", f3).as_bytes()) };' % (D, self.sp))
         else:
-            out.append('    let into = "-".to_string();')
+            # the impl must be ABSENT: an inherent method bounded by the trait wins over the fallback trait method
+            out.append('    let into = ProbeInto(&v).probe_into().to_string();')
         if evalflag == 1:
             out.append('    let ev = format!("{}", (v.clone() as %s) as i128);' % (R if e.repr else 'isize'))
         elif evalflag == 2:
